@@ -155,15 +155,20 @@ func scanLemmaOne(c *Ctx, fn, loopFn *ssa.Function, isTable func(v ssa.Value) bo
 		if counter == nil {
 			continue
 		}
-		// break test: x < T[i+s] leaving the loop on the true edge
+		// break test: the loop is left when x < T[i+s] (`if x < T[i+s] { break }`, or `for x >= T[i+s]`)
 		found := false
 		for b := range li.body {
 			iff, isIf := b.Instrs[len(b.Instrs)-1].(*ssa.If)
-			if !isIf || li.body[b.Succs[0]] {
+			if !isIf {
 				continue
 			}
 			bo, isBin := iff.Cond.(*ssa.BinOp)
-			if !isBin || bo.Op != token.LSS {
+			if !isBin {
+				continue
+			}
+			exitOnTrue := !li.body[b.Succs[0]] && li.body[b.Succs[1]]
+			exitOnFalse := li.body[b.Succs[0]] && !li.body[b.Succs[1]]
+			if !(bo.Op == token.LSS && exitOnTrue) && !(bo.Op == token.GEQ && exitOnFalse) {
 				continue
 			}
 			ld, isLd := bo.Y.(*ssa.UnOp)
